@@ -39,8 +39,8 @@ func (r *ResponseFilter) Filter(msg proto.Message) {
 	if r.fields == nil {
 		return
 	}
-	if msg == nil {
-		return
+	if msg == nil || !msg.ProtoReflect().IsValid() {
+		return // nothing there (also a typed nil pointer): nothing to filter, and nothing that could be reset
 	}
 	if len(r.fields.GetPaths()) == 0 {
 		proto.Reset(msg)
@@ -82,8 +82,8 @@ func (r *ResponseFilter) FilterClone(msg proto.Message) proto.Message {
 	if r.fields == nil {
 		return msg
 	}
-	if msg == nil {
-		return msg
+	if msg == nil || !msg.ProtoReflect().IsValid() {
+		return msg // nothing there (also a typed nil pointer)
 	}
 	if len(r.fields.GetPaths()) == 0 {
 		clone := proto.Clone(msg)
